@@ -694,6 +694,13 @@ func (f *transformationCallable) Call(argv []reflect.Value) (reflect.Value, erro
 		return undefined, nil
 	}
 
+	// Only objects that belong to the copy can be modified. The
+	// pattern can also select objects that live elsewhere (e.g.
+	// with $$ or a variable bound outside the transformation),
+	// in particular the caller's input data.
+	owned := make(map[uintptr]bool)
+	collectMaps(obj, owned)
+
 	items, err := eval(f.pattern, obj, f.env)
 	if err != nil {
 		return undefined, err
@@ -704,7 +711,7 @@ func (f *transformationCallable) Call(argv []reflect.Value) (reflect.Value, erro
 	for i := 0; i < items.Len(); i++ {
 
 		item := jtypes.Resolve(items.Index(i))
-		if !jtypes.IsMap(item) {
+		if !jtypes.IsMap(item) || !owned[item.Pointer()] {
 			continue
 		}
 
@@ -720,6 +727,21 @@ func (f *transformationCallable) Call(argv []reflect.Value) (reflect.Value, erro
 	}
 
 	return obj, nil
+}
+
+// collectMaps adds the identities of all maps in v to the set.
+func collectMaps(v reflect.Value, set map[uintptr]bool) {
+	switch v = jtypes.Resolve(v); {
+	case jtypes.IsMap(v):
+		set[v.Pointer()] = true
+		for _, k := range v.MapKeys() {
+			collectMaps(v.MapIndex(k), set)
+		}
+	case jtypes.IsArray(v):
+		for i, N := 0, v.Len(); i < N; i++ {
+			collectMaps(v.Index(i), set)
+		}
+	}
 }
 
 func (f *transformationCallable) validateArgs(argv []reflect.Value) error {
